@@ -35,7 +35,7 @@ def zero_like(f, i):
     return False
 
 
-def rule_reset(ctx, rid="reset"):
+def rule_reset(ctx, rid="reset", only=None):
     db = ctx.db
     r = ctx.rule(rid, "each global location written and read by per-file code is either never read before a whole-object store "
                  "on any path from do_source_file's entry (no upward-exposed load), or reset to zero on every path of uncrustify_end")
@@ -52,6 +52,9 @@ def rule_reset(ctx, rid="reset"):
         if st and ld:
             G.append((loc, st, ld))
     r.require(len(G) >= 40, "only %d global locations are written and read by per-file code (expected >= 40)" % len(G))
+    if only is not None:
+        G = [g for g in G if g[0] in only]
+        r.require(len(G) == len(only), "locations %s are no longer written and read by per-file code" % sorted(set(only) - set(g[0] for g in G)))
     pk = sorted(P)
     for loc, st, ld in G:
         r.seen(len(st) + len(ld))
@@ -74,7 +77,7 @@ def rule_reset(ctx, rid="reset"):
         r.fail(loc, loc_s, "%s is read in %s (`%s`) before any whole-object store on a path from do_source_file's entry (call chain %s); "
                "it is written by %s and not reset on every path%s: the value left by the previous file is observed"
                % (loc, wfun.qn, db.src_line(wfun.file, wn["l"])[:70], " > ".join(db.funcs[k].qn for k in chain), stores_s[:6], dws))
-    r.floor(40)
+    r.floor(40 if only is None else len(only))
 
 
 def rule_end_reached(ctx):
